@@ -187,6 +187,9 @@ def gen_writer_program(rng, x, kind="mixed", types=None, nsig=None, twr=False, m
         if omit and rng.random() < omit_p:
             ops.append({"op": "omit", "sig": g, "en": rng.choice([0, 1, 1])})
             feat.add("omit")
+        if rng.random() < 0.04:
+            ops.append({"op": "flush"})
+            feat.add("flush")
         if steps > 400:
             break
     ops.append({"op": "wclose"})
